@@ -1,1 +1,241 @@
 // replay hooks for src/lib.rs (included as a child module `verif_replay` of that file)
+//
+// C18 exploration (NOT a proof, NOT exhaustive): the real disk B+tree (src/bplustree/tree.rs) against an ordered map.
+// Deterministic pseudo-random operation sequences (xorshift, seed from VERIF_SEED, default 0) over a skewed key
+// set; after EVERY operation the answer of the operation is compared with the model, and after every 8th
+// operation (and after every reopen) the complete forward scan, a sub-range scan and point lookups of all keys
+// are compared.
+//   * bytewise key order: keys of 1..40 bytes from a pool of 48 (shared prefixes, 0x00 / 0xff bytes)
+//   * version key order (TimestampComparator over encoded internal keys): 6 user keys x 5 timestamps, every
+//     insert carries a fresh sequence number and a kind - an insert of an existing (user key, timestamp) must
+//     replace the stored KEY bytes as well as the value
+//   * value sizes {0, 10, 300, 1500, 5000} (5000 > page: overflow chains), deletes, overwrites, reopen
+// Bound (stated): `nseq` sequences x `len` operations per key order.
+use super::*;
+use crate::bplustree::tree::new_disk_tree;
+use std::collections::BTreeMap;
+use std::ops::Bound;
+
+struct Rng(u64);
+impl Rng {
+	fn next(&mut self) -> u64 {
+		let mut x = self.0;
+		x ^= x << 13;
+		x ^= x >> 7;
+		x ^= x << 17;
+		self.0 = x;
+		x
+	}
+	fn below(&mut self, n: u64) -> u64 {
+		self.next() % n
+	}
+}
+
+fn value_of(rng: &mut Rng, tag: u64) -> Vec<u8> {
+	let len = [0usize, 10, 300, 1500, 5000][rng.below(5) as usize];
+	let mut v = vec![(tag % 251) as u8; len];
+	for (i, b) in v.iter_mut().enumerate().take(8) {
+		*b = ((tag >> (8 * (i % 8))) & 0xff) as u8;
+	}
+	v
+}
+
+fn bptree_enum_impl(nseq: u64, len: usize, name: &str) {
+	let seed: u64 = std::env::var("VERIF_SEED").ok().and_then(|s| s.parse().ok()).unwrap_or(0);
+	let mut cases = 0u64;
+	let mut nontrivial = 0u64;
+	let mut failures: Vec<String> = Vec::new();
+	let mut samples: Vec<String> = Vec::new();
+	let mut ops_total = 0u64;
+	// key pool for the bytewise order
+	let mut pool: Vec<Vec<u8>> = Vec::new();
+	for i in 0..48u8 {
+		let mut k = match i % 4 {
+			0 => vec![b'k'],
+			1 => b"key/".to_vec(),
+			2 => b"key/long/prefix/shared/by/many/".to_vec(),
+			_ => vec![0xff, 0x00],
+		};
+		k.push(i);
+		if i % 5 == 0 {
+			k.push(0);
+		}
+		if i % 7 == 0 {
+			k.push(0xff);
+		}
+		pool.push(k);
+	}
+	for version_order in [false, true] {
+		for s in 0..nseq {
+			cases += 1;
+			let mut rng = Rng(0x9E3779B97F4A7C15 ^ (seed.wrapping_mul(0x100000001B3)) ^ (s + 1).wrapping_mul(0xD1342543DE82EF95) ^ (version_order as u64));
+			let dir = tempdir::TempDir::new("verif_c18").unwrap();
+			let path = dir.path().join("tree.bpt");
+			let cmp: Arc<dyn Comparator> = if version_order { Arc::new(TimestampComparator::new(Arc::new(BytewiseComparator::default()))) } else { Arc::new(BytewiseComparator::default()) };
+			let mut tree = match new_disk_tree(&path, Arc::clone(&cmp)) {
+				Ok(t) => t,
+				Err(e) => {
+					failures.push(format!("{{\"sequence\":{s},\"mismatch\":\"create failed: {e}\"}}"));
+					continue;
+				}
+			};
+			// model: order key -> (stored key bytes, value)
+			let mut model: BTreeMap<Vec<u8>, (Vec<u8>, Vec<u8>)> = BTreeMap::new();
+			let mut trace: Vec<String> = Vec::new();
+			let mut bad: Option<String> = None;
+			let mut seqno = 0u64;
+			let mut splits_likely = 0usize;
+			let mk = |rng: &mut Rng, seqno: &mut u64| -> (Vec<u8>, Vec<u8>) {
+				if version_order {
+					let uk = format!("u{}", rng.below(6)).into_bytes();
+					let ts = 100 * (1 + rng.below(5));
+					*seqno += 1;
+					let kind = [InternalKeyKind::Set, InternalKeyKind::SoftDelete, InternalKeyKind::Delete, InternalKeyKind::Replace][rng.below(4) as usize];
+					let ik = InternalKey::new(uk.clone(), *seqno, kind, ts);
+					// order key: user key, then timestamp DESCENDING
+					let mut ok = uk;
+					ok.push(0);
+					ok.extend_from_slice(&(u64::MAX - ts).to_be_bytes());
+					(ok, ik.encode())
+				} else {
+					let k = pool[(rng.below(48).min(rng.below(48))) as usize].clone(); // skewed towards the low indices
+					(k.clone(), k)
+				}
+			};
+			for step in 0..len {
+				ops_total += 1;
+				let choice = rng.below(100);
+				if choice < 55 {
+					let (ok, kb) = mk(&mut rng, &mut seqno);
+					let v = value_of(&mut rng, s * 1000 + step as u64);
+					trace.push(format!("insert(key#{} len {}, value len {})", model.len(), kb.len(), v.len()));
+					if v.len() >= 300 {
+						splits_likely += 1;
+					}
+					if let Err(e) = tree.insert(&kb, &v) {
+						bad = Some(format!("step {step}: insert failed: {e}"));
+						break;
+					}
+					model.insert(ok, (kb, v));
+				} else if choice < 75 {
+					let (ok, kb) = mk(&mut rng, &mut seqno);
+					trace.push(format!("delete(key len {})", kb.len()));
+					let want = model.remove(&ok).map(|(_, v)| v);
+					match tree.delete(&kb) {
+						Err(e) => {
+							bad = Some(format!("step {step}: delete failed: {e}"));
+							break;
+						}
+						Ok(got) => {
+							if got.as_ref().map(|b| b.to_vec()) != want {
+								bad = Some(format!("step {step}: delete returned a value of {:?} bytes, the map holds {:?} bytes", got.map(|b| b.len()), want.map(|b| b.len())));
+								break;
+							}
+						}
+					}
+				} else if choice < 92 {
+					let (ok, kb) = mk(&mut rng, &mut seqno);
+					trace.push(format!("get(key len {})", kb.len()));
+					let want = model.get(&ok).map(|(_, v)| v.clone());
+					match tree.get(&kb) {
+						Err(e) => {
+							bad = Some(format!("step {step}: get failed: {e}"));
+							break;
+						}
+						Ok(got) => {
+							if got.as_ref().map(|b| b.to_vec()) != want {
+								bad = Some(format!("step {step}: get returned {:?} bytes, the map holds {:?} bytes", got.map(|b| b.len()), want.map(|b| b.len())));
+								break;
+							}
+						}
+					}
+				} else {
+					trace.push("reopen".to_string());
+					if let Err(e) = tree.close() {
+						bad = Some(format!("step {step}: close failed: {e}"));
+						break;
+					}
+					drop(tree);
+					tree = match new_disk_tree(&path, Arc::clone(&cmp)) {
+						Ok(t) => t,
+						Err(e) => {
+							bad = Some(format!("step {step}: reopen failed: {e}"));
+							break;
+						}
+					};
+				}
+				if step % 8 == 7 || step + 1 == len || trace.last().map(|t| t == "reopen").unwrap_or(false) {
+					// complete forward scan: stored key bytes and values in order
+					let scan = |lo: Bound<&[u8]>, hi: Bound<&[u8]>| -> std::result::Result<Vec<(Vec<u8>, Vec<u8>)>, String> {
+						let it = tree.range((lo, hi)).map_err(|e| e.to_string())?;
+						let mut out = Vec::new();
+						for item in it {
+							let (k, v) = item.map_err(|e| e.to_string())?;
+							out.push((k.to_vec(), v.to_vec()));
+							if out.len() > model.len() + 2 {
+								break;
+							}
+						}
+						Ok(out)
+					};
+					let want: Vec<(Vec<u8>, Vec<u8>)> = model.values().cloned().collect();
+					match scan(Bound::Unbounded, Bound::Unbounded) {
+						Err(e) => bad = Some(format!("step {step}: scan failed: {e}")),
+						Ok(got) => {
+							if got != want {
+								let first = (0..got.len().max(want.len())).find(|&i| got.get(i) != want.get(i)).unwrap();
+								bad = Some(format!("step {step}: full scan returns {} entries, the map holds {}; first difference at position {first}: tree has key of {:?} bytes / value of {:?} bytes, map has key of {:?} bytes / value of {:?} bytes{}", got.len(), want.len(), got.get(first).map(|e| e.0.len()), got.get(first).map(|e| e.1.len()), want.get(first).map(|e| e.0.len()), want.get(first).map(|e| e.1.len()), if got.get(first).map(|e| &e.1) == want.get(first).map(|e| &e.1) && got.get(first).map(|e| &e.0) != want.get(first).map(|e| &e.0) { " (same value, different stored key bytes)" } else { "" }));
+							}
+						}
+					}
+					if bad.is_none() && !version_order && model.len() >= 2 {
+						// a sub-range [k_lo, k_hi) in key order
+						let keys: Vec<&Vec<u8>> = model.keys().collect();
+						let lo = keys[keys.len() / 4].clone();
+						let hi = keys[(3 * keys.len()) / 4].clone();
+						let want: Vec<(Vec<u8>, Vec<u8>)> = model.range(lo.clone()..hi.clone()).map(|(_, v)| v.clone()).collect();
+						match scan(Bound::Included(&lo[..]), Bound::Excluded(&hi[..])) {
+							Err(e) => bad = Some(format!("step {step}: range scan failed: {e}")),
+							Ok(got) => {
+								if got != want {
+									bad = Some(format!("step {step}: range scan returns {} entries, the map holds {} in that range", got.len(), want.len()));
+								}
+							}
+						}
+					}
+					if bad.is_some() {
+						break;
+					}
+				}
+			}
+			if splits_likely >= 6 {
+				nontrivial += 1;
+				if samples.len() < 3 {
+					samples.push(format!("\"order={} seq#{s}: {}\"", if version_order { "version" } else { "bytewise" }, trace.iter().take(12).cloned().collect::<Vec<_>>().join("; ")));
+				}
+			}
+			if let Some(b) = bad {
+				if failures.len() < 5 {
+					let tail: Vec<String> = trace.iter().rev().take(6).rev().cloned().collect();
+					failures.push(format!("{{\"key_order\":\"{}\",\"seed\":{seed},\"sequence\":{s},\"last_operations\":\"{}\",\"mismatch\":{:?}}}", if version_order { "version (user key, timestamp)" } else { "bytewise" }, tail.join("; "), b));
+				}
+			}
+		}
+	}
+	println!(
+		"REPLAY-RESULT {{\"driver\":\"{name}\",\"cases\":{cases},\"operations\":{ops_total},\"distinct_nontrivial\":{nontrivial},\"seed\":{seed},\"samples\":[{}],\"failures\":[{}]}}",
+		samples.join(","),
+		failures.join(",")
+	);
+	assert!(failures.is_empty());
+}
+
+#[test]
+fn bptree_enum_quick() {
+	bptree_enum_impl(150, 80, "bptree_enum_quick");
+}
+
+#[test]
+fn bptree_enum_thorough() {
+	bptree_enum_impl(2000, 160, "bptree_enum_thorough");
+}
